@@ -265,8 +265,11 @@ where
             .saturating_sub(*control_data_len as usize)
             .saturating_sub(tag_len);
 
-        // TODO figure out encoding size for the capacity
-        let remaining_payload_capacity = remaining_payload_capacity.saturating_sub(1);
+        // reserve room for the payload length prefix: its size depends on the value, which is
+        // bounded by both the buffered length and the remaining capacity
+        let payload_len_size = VarInt::try_from(buffered_len.min(remaining_payload_capacity))
+            .map_or(8, |len| len.encoding_size());
+        let remaining_payload_capacity = remaining_payload_capacity.saturating_sub(payload_len_size);
 
         let payload_len = buffered_len.min(remaining_payload_capacity);
 
